@@ -1,18 +1,22 @@
 typedef unsigned long u64;
-u64 ga = 851; u64 gb = 29; u64 gc_[4] = {1,2,3,143}; static u64 sa = 191; static u64 sb[3] = {384,5,6};
+u64 ga = 535; u64 gb = 124; u64 gc_[4] = {1,2,3,886}; static u64 sa = 836; static u64 sb[3] = {192,5,6};
 __thread u64 tva = 3; __thread u64 tvb = 4;
 extern u64 ext_a, ext_b; extern u64 ext_f(u64); extern u64 ext_g(u64);
-__attribute__((noinline)) u64 fn0(u64 x) { return x * 817 + ga + sb[0]; }
-__attribute__((noinline)) static u64 sf0(u64 x) { return (x ^ 851) + sa + gb; }
-__attribute__((noinline)) u64 fn1(u64 x) { return x * 789 + ga + sb[1]; }
-__attribute__((noinline)) static u64 sf1(u64 x) { return (x ^ 29) + sa + gb; }
-__attribute__((noinline)) u64 fn2(u64 x) { return x * 83 + ga + sb[2]; }
-__attribute__((noinline)) static u64 sf2(u64 x) { return (x ^ 143) + sa + gb; }
-__attribute__((noinline)) u64 fn3(u64 x) { return x * 627 + ga + sb[0]; }
-__attribute__((noinline)) static u64 sf3(u64 x) { return (x ^ 191) + sa + gb; }
-u64 (*const ftab[])(u64) = {fn0, fn1, fn2, fn3, sf0, sf1, sf2, sf3};
+__attribute__((noinline)) u64 fn0(u64 x) { return x * 239 + ga + sb[0]; }
+__attribute__((noinline)) static u64 sf0(u64 x) { return (x ^ 535) + sa + gb; }
+__attribute__((noinline)) u64 fn1(u64 x) { return x * 69 + ga + sb[1]; }
+__attribute__((noinline)) static u64 sf1(u64 x) { return (x ^ 124) + sa + gb; }
+__attribute__((noinline)) u64 fn2(u64 x) { return x * 633 + ga + sb[2]; }
+__attribute__((noinline)) static u64 sf2(u64 x) { return (x ^ 886) + sa + gb; }
+__attribute__((noinline)) u64 fn3(u64 x) { return x * 737 + ga + sb[0]; }
+__attribute__((noinline)) static u64 sf3(u64 x) { return (x ^ 836) + sa + gb; }
+__attribute__((noinline)) u64 fn4(u64 x) { return x * 923 + ga + sb[1]; }
+__attribute__((noinline)) static u64 sf4(u64 x) { return (x ^ 192) + sa + gb; }
+__attribute__((noinline)) u64 fn5(u64 x) { return x * 239 + ga + sb[2]; }
+__attribute__((noinline)) static u64 sf5(u64 x) { return (x ^ 239) + sa + gb; }
+u64 (*const ftab[])(u64) = {fn0, fn1, fn2, fn3, fn4, fn5, sf0, sf1, sf2, sf3, sf4, sf5};
 u64 *ptab[] = { &ga, &gb, &gc_[2], &sa, &sb[1], &ext_a };
 __attribute__((constructor)) static void ctor_a(void) { ga += 1; }
 __attribute__((constructor)) static void ctor_b(void) { gb += 2; }
-u64 driver(u64 x) { u64 v = x; v += fn0(v) + sf0(v); v += fn1(v) + sf1(v); v += fn2(v) + sf2(v); v += fn3(v) + sf3(v); v += ftab[x % 8](v) + *ptab[x % 6]; v += ext_f(v) + ext_a + ext_g(v) + ext_b; tva += v; tvb ^= v; v += tva + tvb; return v; }
+u64 driver(u64 x) { u64 v = x; v += fn0(v) + sf0(v); v += fn1(v) + sf1(v); v += fn2(v) + sf2(v); v += fn3(v) + sf3(v); v += fn4(v) + sf4(v); v += fn5(v) + sf5(v); v += ftab[x % 12](v) + *ptab[x % 6]; v += ext_f(v) + ext_a + ext_g(v) + ext_b; tva += v; tvb ^= v; v += tva + tvb; return v; }
 u64 tail9(u64 x) { return fn0(x + 1); }
